@@ -150,6 +150,7 @@ type solveOpts struct {
 	dir     string
 	jobs    int
 	cross   bool // thorough: also require no solver says sat
+	noRetry bool
 }
 
 func (prog *Program) discharge(obls []*Obligation, axioms []*Term, opt solveOpts) {
@@ -173,6 +174,34 @@ func (prog *Program) discharge(obls []*Obligation, axioms []*Term, opt solveOpts
 			defer func() { <-sem }()
 			solveSplit(o, files[i], opt, 0)
 		}(i, o)
+	}
+	wg.Wait()
+	// Second chance: an obligation without an answer may only have lost the race for the machine (16 solver
+	// processes at a time, three per obligation in the race). Such obligations are run again, four at a time, with
+	// three times the budget, so that a loaded or slower machine does not turn a provable obligation into an alarm.
+	var again []int
+	for i, o := range obls {
+		if !o.Cover && !o.NoRetry && o.Raw == "" && (o.Status == "timeout" || o.Status == "unknown") {
+			again = append(again, i)
+		}
+	}
+	if len(again) == 0 || opt.noRetry {
+		return
+	}
+	opt2 := opt
+	opt2.timeout = 3 * opt.timeout
+	sem2 := make(chan struct{}, 4)
+	for _, i := range again {
+		wg.Add(1)
+		go func(i int, o *Obligation) {
+			defer wg.Done()
+			sem2 <- struct{}{}
+			defer func() { <-sem2 }()
+			first := *o
+			solveSplit(o, files[i], opt2, 0)
+			o.Seconds += first.Seconds
+			o.Output = first.Output + "; second chance: " + o.Output
+		}(i, obls[i])
 	}
 	wg.Wait()
 }
@@ -211,7 +240,7 @@ func solveStages(ctx context.Context, o *Obligation, file string, opt solveOpts,
 	var outs []string
 	// stage 1: primary solver with a short budget; stage 2: race all
 	if which != 2 {
-		st, out, secs := runSolver(ctx, solvers[0], file, minDur(opt.timeout, 5*time.Second))
+		st, out, secs := runSolver(ctx, solvers[0], file, minDur(opt.timeout, 8*time.Second))
 		total += secs
 		outs = append(outs, solvers[0].Name+": "+firstLine(out))
 		if st == want {
